@@ -134,4 +134,8 @@ BOUNDED = {
              'bound': 'all strings of length <= 3 over {a, b, U+017C (2 bytes), U+20AC (3 bytes), U+1F40E (4 bytes)} x all match strings of length <= 2, through parse+evaluate under catch_unwind, '
                       'against a character-sequence reference (these functions index str by byte offsets, which Verus cannot reason about)'}],
 }
-BOUNDED['C08'] = BOUNDED['C05']
+BOUNDED['C08'] = list(BOUNDED['C05'])
+BOUNDED['C05'] = BOUNDED['C05'] + [{'name': 'built-ins-never-panic', 'script': 'biftotal.py', 'args': [],
+    'functions': ['every built-in function of feel-evaluator/src/bifs (names read from feel/src/bif.rs), positional form'],
+    'bound': 'each of the 73 built-in names applied to every tuple of 0, 1 and 2 arguments from a 23-value grid (null, numbers incl. 2^64, strings incl. multi-byte, booleans, empty / null / nested lists, contexts, '
+             'date, time, date and time, both durations, a function) and to every triple from an 8-value grid: 77 745 evaluations under catch_unwind, no panic'}]
